@@ -1,6 +1,6 @@
 """C08 — format(): no out-of-bounds access or UB for any format string (memory-safety clause)."""
 import re
-from ..frontend import kids, walk, qn, qtype, dtype, pos, ancestors, AnalysisBroken, params_of
+from ..frontend import kids, walk, qn, qtype, dtype, pos, ancestors, AnalysisBroken, params_of, owner_fn
 from ..expr import callee, call_args, peel, Keys, Folder
 from ..callgraph import fname
 from ..absint import AI, Observer, St, Int, Ptr, I, TOP, vjoin
@@ -239,6 +239,7 @@ def run(ctx):
     n_sites = 0
     for (x, Ff) in [(x_, ctx.facts(f_)) for k_, (u_, f_) in sorted(G.defs.items()) for x_ in walk(f_)
                     if x_.get('kind') == 'CallExpr' and callee(x_) and callee(x_)[0] == 'fn' and callee(x_)[1].get('name') == 'FormatTM'
+                    and owner_fn(x_) is f_
                     and (callee(x_)[1].get('_qn') or '').startswith('cctz::')]:
         if True:
             n_sites += 1
